@@ -6,7 +6,8 @@ PID = "C11"
 EPS = 2.0 ** -53
 RULE = ("one case = one call (fmin | fmax | fpair | nm | nmd | nm1 with objective, start, step/tolerance), or a run of calls in one process on one or several "
         "Minimization objects with 1-D calls in between, the vector arguments given by the caller or being public members of the objects (current_simplex, a row of it, y; "
-        "of the called object or another; by reference or copied) (seq; non-trivial = at least two calls returned and 24 evaluations), or an outer call whose objective runs a "
+        "of the called object or another; by reference or copied), with the caller writing the public members between calls (putY, putS, putN) and calls abandoned by an objective that throws "
+        "at its n-th evaluation (ab) (seq; non-trivial = at least two calls returned and 24 evaluations), or an outer call whose objective runs a "
         "minimisation itself (nest; non-trivial like the outer call); non-trivial = a Nelder-Mead run with at least 12 "
         "objective evaluations after the initial simplex (such runs contain reflections, expansions and contractions; shrinks are rarer and are counted in the "
         "evidence's input distribution only through the traces), or a 1-D run with at least one downhill bracketing step beyond the first three evaluations and at least "
@@ -20,20 +21,27 @@ LEVEL_TEXT = ("Theorems (Coq, abstract number type with only the laws of a total
               "gives the answer of a fresh object, and so does every call of a run of calls on one object (call history: mpts, ndim, simplex, y are assigned before they are read, nfunc is reset); "
               "a call whose by-reference arguments are public members of objects (m.current_simplex, a row of it, m.y, the starting vector also as displacements, members of other objects) gives the answer of a fresh object on the "
               "values the members held, and the restart idioms minimize(m.current_simplex, f), minimize(m.current_simplex[0], deltas|delta, f) never end above the fmin of the call they restart from. "
+              "a call with the caller's own arguments gives the same answer in any two states of all the objects - whatever the caller wrote into the public members (nfunc, mpts, ndim, fmin, y, current_simplex) "
+              "and whatever an abandoned call (objective threw) left there -, minimize(m.current_simplex, f) after the caller assigned s to m.current_simplex and anything to the other members is the fresh answer on s, "
+              "and a call abandoned at the objective's n-th evaluation has asked for exactly the first n points of the completed call's trace, which begins with the rows of the stated simplex. "
               "NOT theorems: convergence to the minimiser within the tolerance (Nelder-Mead has no such theorem; Brent's is a real-analysis result for exactly unimodal f). "
               "These clauses are decided on the implementation (S4) on the quantifier's classes: quadratic bowls with condition number up to 1e4 in 1..6 dimensions, quartic-flat, "
               "cosh-like, Morse and Lennard-Jones-like 1-D wells, random starts, scales 1e-3..1e3, tolerances 1e-3..1e-12, with the a-priori distance bounds written next to the predicates; "
               "descent and consistency are also replayed exactly (bit for bit, the objective re-evaluated in Python) on multimodal sin/cos mixtures. "
               "Also driven: 1-D bowls whose values overflow to +inf at visited points (far starts, steep bowls, repulsive walls); runs of 2..60 calls on shared objects "
               "(every answer compared with a fresh object's, evaluation counts passing NMAX); runs in which the arguments are the objects' own or another object's public members, passed by reference "
-              "(aliasing: the restart from the reported simplex / reported point, y or the starting vector as displacements) or copied, judged on the values the members held when the call started; profiled objectives F(x) = min_z g(x,z) whose evaluation runs Nelder-Mead "
+              "(aliasing: the restart from the reported simplex / reported point, y or the starting vector as displacements) or copied, judged on the values the members held when the call started; runs in which the caller overwrites y (stale, 'better than possible', infinite values, other lengths), current_simplex (the very simplex of the next request) "
+              "and nfunc/mpts/ndim/fmin (counters at NMAX, sizes of another problem) between calls, runs in which a call is abandoned by a throwing objective (at every vertex of the initial loop and 1..60 evaluations into the iteration) "
+              "and the object is used again (the retry, the same arguments with another objective, restarts), every later call judged by all clauses and against a fresh object; profiled objectives F(x) = min_z g(x,z) whose evaluation runs Nelder-Mead "
               "(fresh or reused inner object) or Find_Minimum inside the outer run (re-entrancy), judged on the values the objective returned during and after the run.")
 LEVEL_NOTE = ("Coq 8.16.1 kernel; order-theoretic theorems are axiom-free (OrdLaws: total order on the objective's values, i.e. NaN-free objectives); find_maximum_not_worse is over R; "
               "hand-written model tied by differential correspondence including the full evaluation traces (bit-identical expected); the bracketing loop of the source has no iteration cap "
               "(model fuel 1000 -> FUEL), Brent's ITMAX = 100 and Nelder-Mead's NMAX = 5000 exits are modelled as EXIT; "
               "the model of minimize(pp) covers rectangular simplices with >= 2 vertices (others: out-of-bounds reads, not generated); "
               "arguments are values in the model: a by-reference argument that is a member contributes the value the member has when the call starts (C11_Model.v 3.3b says why the code behaves so; "
-              "the harness passes the members themselves and the correspondence check compares)")
+              "the harness passes the members themselves and the correspondence check compares); "
+              "the state an abandoned call leaves in the object is not modelled (objs_abandon takes it as an argument; the theorems hold for every state): the case language does not refer to the members of an object "
+              "between an abandoned call and its next returned call; that a C++ exception thrown by the objective passes through minimize without other effects is trusted (it holds only std::vector locals)")
 TOL = (1e-12, 0.0)
 TRUSTED = ["objective values are assumed NaN-free in the theorems (a total order); generated objectives are finite on the explored region",
            "S4 re-evaluates the objective in Python with the same libm (math.sin/cos/exp/cosh/log/pow) to compare reported values bit for bit"]
@@ -339,6 +347,119 @@ def member_case(rng):
     return Case(line, ("seq", "member-arguments", f"objects{nobj}") + tuple(sorted(kinds)), info={"calls": infos})
 
 
+def state_case(rng):
+    """what else happens to an object between two calls (each later call is judged by the clauses of a single call and against a fresh object):
+    (a) the caller writes the public data members: y (stale values, values 'better' than any the objective takes, other lengths), current_simplex (the very
+        simplex of the next request, so that the object looks as if it had just run on it; other shapes), nfunc / mpts / ndim / fmin (counters at and
+        beyond NMAX, sizes of another problem);
+    (b) a call is abandoned: the objective throws at its n-th evaluation (n on a ladder from the first vertex to tens of evaluations into the iteration),
+        the caller catches and uses the object again - the identical request once more (the retry), the same arguments with another objective,
+        the restart from the reported simplex after stale values were written, or an unrelated request;
+    (c) the same arguments (simplex / starting point / steps) with ANOTHER objective on the same object."""
+    tols = [1e-3, 1e-4, 1e-6, 1e-8, 1e-10, 1e-12]
+    nobj = rng.choice([1, 1, 1, 2]); ftols = [rng.choice(tols) for _ in range(nobj)]
+    calls = []; infos = []; kinds = set()
+    known = [None] * nobj       # (n, m, objective text, info) when the members of the object are known (it returned from a call / its simplex was written)
+    lastreq = [None] * nobj     # (argument text without objective, n, objective text, info) of the last request made on the object
+    n0 = rng.choice([1, 2, 2, 3, 3, 4, 5, 6])
+
+    def bowl(n):
+        e, info = quad_nd(rng, n); return e, dict(info, n=n)
+
+    def other_objective(n):
+        if rng.random() < 0.75: return bowl(n)
+        e, _s = multimodal_nd(rng, n); return e, {}
+
+    def args_for(n, e, info):
+        """argument text (without objective) of a fresh request and, for the general interface, its table"""
+        sc = info["scale"]
+        start = [cj + sc * 10 ** rng.uniform(-1, 1.5) * rng.gauss(0, 1) for cj in info["c"]]
+        delta = sc * 10 ** rng.uniform(-2, 2) * rng.choice([-1, 1])
+        k = rng.choice(["nm1", "nmd", "nm", "nm"])
+        if k == "nm1": return f"nm1 {flist(start)} {hx(delta)}", None
+        if k == "nmd": return f"nmd {flist(start)} {flist([delta * 10 ** rng.uniform(-1, 1) * rng.choice([-1, 1]) for _ in range(n)])}", None
+        pp = [[x + abs(delta) * rng.gauss(0, 1) for x in start] for _ in range(n + 1)]
+        return f"nm {table(pp)}", pp
+
+    def emit(ob, argtxt, n, e, info, nab=0, conv=True):
+        pre = f"ab {nab} " if nab else ""
+        calls.append(f"{ob} {pre}{argtxt} {e}")
+        infos.append(dict(info, ftol=ftols[ob]) if conv else dict(info, ftol=ftols[ob], mu=None))
+        lastreq[ob] = (argtxt, n, e, info)
+        known[ob] = None if nab else (n, n + 1, e, info)
+
+    def garbage_y(m, ob):
+        r = rng.random()
+        L = m if r < 0.7 else rng.choice([0, max(0, m - 1), m + 1, m + 3])
+        q = rng.random()
+        if q < 0.3: return [0.0] * L
+        if q < 0.55: return [-10 ** rng.uniform(0, 300)] * L                 # 'better' than any value of the objective
+        if q < 0.7: return [-math.inf] * L
+        if q < 0.85: return [rng.gauss(0, 1) * 10 ** rng.uniform(-3, 3) for _ in range(L)]
+        return [math.inf] * L
+
+    for _step in range(rng.randint(3, 7)):
+        ob = rng.randrange(nobj)
+        n = n0 if rng.random() < 0.7 else rng.choice([1, 2, 3, 4, 5, 6])
+        r = rng.random()
+        if lastreq[ob] is None or r < 0.12:
+            e, info = bowl(n); a, _pp = args_for(n, e, info); emit(ob, a, n, e, info); continue
+        a0, nl, el, il = lastreq[ob]
+        if r < 0.40:
+            # ---- an abandoned call, then what a caller does next with the object
+            if rng.random() < 0.5: e, info = bowl(n); a, _pp = args_for(n, e, info)
+            else: a, n, e, info = a0, nl, el, il                                # the request made before, abandoned this time
+            m = n + 1
+            q = rng.random()
+            nab = rng.randint(1, m) if q < 0.45 else m + 1 if q < 0.6 else m + rng.choice([2, 3, 4, 6, 9, 14, 22, 35, 60])
+            emit(ob, a, n, e, info, nab=nab); kinds.add("abandoned-in-initial-loop" if nab <= m else "abandoned-in-iteration")
+            q = rng.random()
+            if q < 0.5: emit(ob, a, n, e, info); kinds.add("retry")             # the identical request once more
+            elif q < 0.75:
+                e2, info2 = other_objective(n); emit(ob, a, n, e2, dict(info2, n=n) if info2 else {}, conv=False); kinds.add("same-arguments-other-objective")
+            continue
+        if r < 0.55:
+            # ---- the same arguments with another objective
+            e2, info2 = other_objective(nl); emit(ob, a0, nl, e2, dict(info2, n=nl) if info2 else {}, conv=False); kinds.add("same-arguments-other-objective"); continue
+        # ---- the caller writes members, then calls
+        q = rng.random()
+        if q < 0.45:
+            # the object is made to look as if it had just run on the simplex of the next request
+            e, info = bowl(n); sc = info["scale"]
+            start = [cj + sc * 10 ** rng.uniform(-1, 1.5) * rng.gauss(0, 1) for cj in info["c"]]
+            pp = [[x + sc * 10 ** rng.uniform(-2, 2) * rng.gauss(0, 1) for x in start] for _ in range(n + 1)]
+            calls.append(f"{ob} putS {table(pp)}"); infos.append({})
+            if rng.random() < 0.8: calls.append(f"{ob} putY {flist(garbage_y(n + 1, ob))}"); infos.append({})
+            if rng.random() < 0.4:
+                calls.append(f"{ob} putN {rng.choice([0, 4998, 4999, 5000, 5001, 2147483647, -3])} {rng.choice([n + 1, n + 1, 0, 1, 99])} {rng.choice([n, n, 0, 7])} {hx(rng.choice([0.0, -1e300, -math.inf, math.inf]))}"); infos.append({})
+            kinds.add("written-simplex")
+            if rng.random() < 0.5: emit(ob, f"nm {table(pp)}", n, e, info)                       # the caller's own (equal) table
+            else:
+                known[ob] = (n, n + 1, e, info); byref = 1 if rng.random() < 0.6 else 0       # ... or the member itself / a copy of it
+                calls.append(f"{ob} nmS {ob} {byref} {e}"); infos.append(dict(info, ftol=ftols[ob])); lastreq[ob] = (f"nm {table(pp)}", n, e, info)
+            continue
+        # writes to y / the scalar members while the object holds the result of a returned call, then the restart idioms or an ordinary request
+        if known[ob] is None:
+            e, info = bowl(n); a, _pp = args_for(n, e, info); emit(ob, a, n, e, info); continue
+        nk, mk, ek, ik = known[ob]
+        if rng.random() < 0.85: calls.append(f"{ob} putY {flist(garbage_y(mk, ob))}"); infos.append({}); kinds.add("written-y")
+        if rng.random() < 0.5:
+            calls.append(f"{ob} putN {rng.choice([0, 4998, 4999, 5000, 5001, 2147483647, -3])} {rng.choice([mk, 0, 1, 99])} {rng.choice([nk, 0, 7])} {hx(rng.choice([0.0, -1e300, -math.inf, math.inf]))}"); infos.append({}); kinds.add("written-counters")
+        q = rng.random()
+        if q < 0.6:
+            e2, info2 = (ek, ik) if rng.random() < 0.5 else other_objective(nk)
+            byref = 1 if rng.random() < 0.6 else 0
+            calls.append(f"{ob} nmS {ob} {byref} {e2}"); infos.append(dict(info2, ftol=ftols[ob], mu=None)); kinds.add("restart-after-write")
+            known[ob] = (nk, mk, e2, info2)      # (lastreq keeps the caller's arguments of the earlier request)
+        elif q < 0.8:
+            calls.append(f"{ob} nm1R r {ob} 0 {1 if rng.random() < 0.6 else 0} {hx(ik.get('scale', 1.0) * 10 ** rng.uniform(-2, 2) * rng.choice([-1, 1]))} {ek}")
+            infos.append(dict(ik, ftol=ftols[ob])); kinds.add("restart-after-write"); known[ob] = (nk, nk + 1, ek, ik)
+        else:
+            e, info = bowl(n); a, _pp = args_for(n, e, info); emit(ob, a, n, e, info)
+    line = f"seq {nobj} {' '.join(hx(t) for t in ftols)} {len(calls)} " + " ".join(calls)
+    return Case(line, ("seq", "object-state", f"objects{nobj}") + tuple(sorted(kinds)), info={"calls": infos})
+
+
 def nest_case(rng):
     """re-entrancy: the objective of the outer minimisation runs a minimisation itself, F(x) = min_z g(x, z);
     g(x, z) = sum_i lam_i (u_i.(x-a))^2 + sum_j m_j (z_j - b_j - w_j.(x-a))^2 + d is jointly strictly convex, so F(x) = q(x - a) + d."""
@@ -465,6 +586,8 @@ def generate(rng, tier):
     for _ in range(60 if big else 6): cs.append(seq_case(rng, True))
     # ---- arguments that are the objects' own public members (restart idioms, aliasing), by reference and by value
     for _ in range(1500 if big else 150): cs.append(member_case(rng))
+    # ---- the caller writes the public members between calls; calls abandoned by a throwing objective; same arguments, another objective
+    for _ in range(1500 if big else 100): cs.append(state_case(rng))
     # ---- re-entrancy: the objective itself runs a minimisation (profiled objective)
     for _ in range(500 if big else 60): cs.append(nest_case(rng))
     # ---- guard of the deltas overload (mismatched lengths must exit)
@@ -548,6 +671,15 @@ def _parse_seq(c):
     calls = []
     for _ in range(ncalls):
         ob = v[p]; kind = t[p + 1]; p += 2
+        if kind in ("putY", "putS", "putN"):
+            # the caller writes the public members of object ob
+            if kind == "putY": val, p = _rd_list(v, p)
+            elif kind == "putS": val, p = _rd_table(v, p)
+            else: val = tuple(v[p:p + 4]); p += 4
+            calls.append({"op": kind, "obj": ob, "val": val}); continue
+        nab = 0
+        if kind == "ab":                                  # the objective throws at its nab-th evaluation
+            nab = v[p]; kind = t[p + 1]; p += 2
         if kind in ("fmin", "fmax"):
             f, q = parse(t, p + 3)
             calls.append({"op": kind, "obj": ob, "xl": v[p], "xr": v[p + 1], "tol": v[p + 2], "f": f}); p = q
@@ -562,9 +694,10 @@ def _parse_seq(c):
                 elif t[p] == "s": P["ds"] = "s"; p += 1
                 else: P["ds"], p = _rd_vsrc(t, v, p)
             P["f"], p = parse(t, p)
+            P["nab"] = nab
             calls.append(P)
         else:
-            P, p = _read_nm_request(t, v, p, kind, ftols[ob]); P["obj"] = ob; calls.append(P)
+            P, p = _read_nm_request(t, v, p, kind, ftols[ob]); P["obj"] = ob; P["nab"] = nab; calls.append(P)
     return calls
 
 
@@ -575,11 +708,11 @@ def _resolve_members(cl, members):
         if src[0] == "g": return list(src[1])
         st = members.get(src[1])
         if st is None: return None
-        if src[0] == "y": return list(st[1])
-        return list(st[0][src[2]]) if 0 <= src[2] < len(st[0]) else None
+        if src[0] == "y": return list(st[1]) if st[1] is not None else None
+        return list(st[0][src[2]]) if st[0] is not None and 0 <= src[2] < len(st[0]) else None
     if cl["op"] == "nmS":
         st = members.get(cl["ppsrc"][0])
-        if st is None: return False
+        if st is None or st[0] is None: return False
         cl.update(pp=[list(r) for r in st[0]], guard=False, start=None, deltas=None); return True
     start = val(cl["st"])
     if start is None: return False
@@ -596,6 +729,11 @@ def _parse_seq_out(calls, v):
     outs = []; p = 0
     for cl in calls:
         if p >= len(v): break
+        if cl["op"] in ("putY", "putS", "putN"):
+            if v[p] != "P": raise ValueError("seq output: write marker expected")
+            p += 1; outs.append({"put": True, "trace": []}); continue
+        if v[p] == "A" and cl.get("nab"):
+            tr, p = _rd_table(v, p + 1); outs.append({"abandoned": True, "trace": tr}); continue
         if v[p] != "C": raise ValueError("seq output: call marker expected")
         p += 1
         if cl["op"] in ("fmin", "fmax"):
@@ -643,7 +781,7 @@ def nontrivial(c, io):
         try:
             if op == "seq":
                 outs = _parse_seq_out(_parse_seq(c), parse_vals(io))
-                return len(outs) >= 2 and sum(len(o["trace"]) for o in outs) >= 24
+                return len([o for o in outs if "nm" in o or "x" in o]) >= 2 and sum(len(o["trace"]) for o in outs) >= 24
             R = _parse_nest(c); O = _parse_nest_out(R, parse_vals(io))
             return len(O["trace"]) >= (9 if R["outer"] == "fmin" else len(R["P"]["pp"]) + 12)
         except Exception:
@@ -695,6 +833,15 @@ def _flat_in_doubles(f, info, trace, bound):
 
 
 def predicates(c, io):
+    """an answer the clauses cannot be evaluated on (wrong shape, missing evaluations, ...) is reported, never skipped silently"""
+    try:
+        return _predicates(c, io)
+    except Exception as e:
+        op = c.line.split()[0]
+        return [(f"{op}:unreadable-answer", f"the clauses of the property could not be evaluated on the implementation's answer ({e!r}): it does not have the shape a returned call has")]
+
+
+def _predicates(c, io):
     out = []
     op = c.line.split()[0]
     if io.startswith(("CRASH", "SANITIZER", "TIMEOUT", "HARNESSERR")): return out
@@ -760,14 +907,18 @@ def _pred_nm(op, P, info, pmin, fmin, y, simplex, nfunc, trace, vals=None, fy=No
     if not (pmin == simplex[0] and fmin == y[0] and fp == fmin):
         out.append((f"{op}:reported-state", f"returned point / fmin / simplex[0] / y[0] are not the same vertex: f(returned) = {fp!r}, fmin = {fmin!r}, y[0] = {y[0]!r}"))
     if any(y[0] > t for t in y): out.append((f"{op}:best-first", f"y[0] = {y[0]!r} is not the smallest vertex value {min(y)!r}"))
-    if trace[:m] != pp: out.append((f"{op}:initial-simplex", "the first evaluations are not the vertices of the stated initial simplex"))
+    if trace[:m] != pp:
+        # (a call that evaluated fewer than m points has not evaluated the vertices it was given: whatever it reports as y does not come from this call's objective)
+        out.append((f"{op}:initial-simplex", "the first evaluations are not the vertices of the stated initial simplex" +
+                    (f": the objective was evaluated at {len(trace)} point(s) in this call, the simplex has {m} vertices" if len(trace) < m else "")))
     ft = [f(r) for r in trace] if vals is None else vals
     if len(ft) != len(trace): out.append((f"{op}:shape", "one objective value per evaluation expected")); return out
+    if vals is not None and len(ft) < m: return out          # (profiled objective: its values at the stated vertices are not in hand)
     f0 = [f(r) for r in pp] if vals is None else ft[:m]      # the objective at the vertices of the STATED initial simplex
     if not any(math.isnan(t) for t in f0) and not math.isnan(fp) and (fmin > min(f0) or fp > min(f0)):
         k = f0.index(min(f0))
         out.append((f"{op}:not-worse", f"the returned point {pmin!r} has f = {fp!r} (fmin = {fmin!r}), worse than the initial vertex {k}: f({pp[k]!r}) = {f0[k]!r}"))
-    if not any(math.isnan(t) for t in ft) and fmin != min(ft):
+    if ft and not any(math.isnan(t) for t in ft) and fmin != min(ft):
         k = ft.index(min(ft))
         out.append((f"{op}:best-of-all-evaluations", f"evaluation {k} gave {ft[k]!r}, the reported minimum is {fmin!r}"))
     # every reported vertex is a point at which the objective was evaluated, with the value it returned there
@@ -823,6 +974,24 @@ def _pred_seq(c, io):
     if len(outs) != len(calls): return [("seq:shape", "one answer per call expected")]
     members = {}                                            # object -> (simplex, y) as reported by its last call
     for k, (cl, info, o) in enumerate(zip(calls, infos, outs)):
+        if cl["op"] in ("putY", "putS", "putN"):
+            # the caller wrote the public members: later requests that refer to them mean the written values (a never-used object has empty vectors)
+            sx, yy = members.get(cl["obj"], ([], []))
+            if cl["op"] == "putY": yy = list(cl["val"])
+            elif cl["op"] == "putS": sx = [list(r) for r in cl["val"]]
+            members[cl["obj"]] = (sx, yy); continue
+        if o.get("abandoned"):
+            # the objective threw at its nab-th evaluation: the call asked for exactly nab points, the vertices of the stated simplex first, in order
+            pv = []
+            if cl.get("members") and not _resolve_members(cl, members):
+                out.append(("seq:shape", f"call {k + 1}: the request refers to members of an object whose members are not known")); break
+            tr = o["trace"]; pp = cl["pp"]; kk = min(cl["nab"], len(pp))
+            opn = {"nmS": "nm", "nm1R": "nm1", "nmdR": "nmd"}.get(cl["op"], cl["op"])
+            if len(tr) != cl["nab"]: pv.append((f"{opn}:abandoned-evaluations", f"the objective threw at evaluation {cl['nab']} but {len(tr)} evaluations were made"))
+            if tr[:kk] != pp[:kk]: pv.append((f"{opn}:initial-simplex", f"the first {kk} evaluations of the abandoned call are not the first vertices of the stated initial simplex"))
+            members[cl["obj"]] = (None, None)           # what an abandoned call leaves in the members is not specified
+            out += [(sig, f"call {k + 1} of {len(calls)} (object {cl['obj']}, abandoned): {msg}") for sig, msg in pv]
+            continue
         if cl["op"] in ("fmin", "fmax"):
             sense = 1 if cl["op"] == "fmin" else -1
             pv = _pred_1d(c, io, cl, o["x"], o["trace"], sense, cl["op"])
